@@ -39,6 +39,35 @@ def compare(view, dump, phase, published, declared_n):
     return None
 
 
+def allowed_by_rules(hist, en) -> bool:
+    """would the documented machine accept this call on the tracker's own operands? (False = the tracker lacks a check the
+    document requires: the known findings; True = tracker and document agree the call is fine, so a machine rejection is
+    a defect of what was emitted)"""
+    from . import interp_explore as ix
+    from . import bridge
+    sim = ix.replay_history(hist)
+    st = [bridge.expand(x.conclusion if isinstance(x, ix.Proved) else x) for x in sim.it.stack]
+    k = en.split()[0]
+    try:
+        if k == 'mu':
+            return rm.positive(st[-1], int(en.split()[1]))
+        if k in ('esubst', 'ssubst'):
+            t = ('esub' if k == 'esubst' else 'ssub', st[-1], int(en.split()[1]), st[-2])
+            return st[-1][0] in ('mv', 'esub', 'ssub') and not rm.redundant(t)
+        if k == 'instantiate':
+            inside = en[en.index('(') + 1:en.index(')')]
+            keys = [int(x) for x in inside.split(',') if x.strip()]
+            n = len(keys)
+            plugs = st[len(st) - 1 - n:len(st) - 1]
+            rm.instantiate(st[-1], keys, plugs, rm.Ctx('drop_mv'))
+            return True
+    except (rm.Reject, rm.Unspecified):
+        return False
+    except Exception:  # noqa: BLE001
+        return True
+    return True
+
+
 def expand_chunk(args):
     histories, event_names, caps = args
     from . import interp_explore as ix
@@ -89,7 +118,8 @@ def expand_chunk(args):
         if not a.startswith('OK '):
             r2 = rm.run3(g, c, p, ph)
             reason = r2[1] if r2[0] == 'REJECT' else r2[0]
-            viols.append(({'kind': 'machine_rejects', 'event': ev_kind, 'reason': reason}, list(child),
+            viols.append(({'kind': 'machine_rejects', 'event': ev_kind, 'reason': reason,
+                           'allowed_by_documented_rules': allowed_by_rules(child[:-1], en)}, list(child),
                           f'after {list(child)} the checker rejects the emitted bytes (reference: {reason}) although the tracker accepted'))
             continue
         err = compare(view, a[3:], ph, published, 2) if view is not None else 'tracker state cannot be expanded'
